@@ -2299,6 +2299,21 @@ def normalize_module(tree: ast.Module, extern=None) -> ast.Module:
                             e.value, str) for e in coll[c.args[0].id].elts):
                 c.args[0] = ast.copy_location(clone(coll[c.args[0].id]),
                                               c.args[0])
+    if coll:
+        # enumerate(NAMES) / zip(NAMES, ..) over a module-level literal tuple
+        # of constants -> over the tuple itself (unrolled further below)
+        for c in ast.walk(tree):
+            if isinstance(c, ast.Call) and norm(c.func) in (
+                    "enumerate", "zip") and not c.keywords:
+                for i_, a_ in enumerate(c.args):
+                    if isinstance(a_, ast.Name) and a_.id in coll and \
+                            isinstance(coll[a_.id], ast.Tuple) and len(
+                                coll[a_.id].elts) <= 12 and all(
+                                isinstance(e, ast.Constant)
+                                for e in coll[a_.id].elts):
+                        c.args[i_] = ast.copy_location(
+                            clone(coll[a_.id]), a_)
+        ast.fix_missing_locations(tree)
     # NAME = frozenset({"a", "b"}) / {"a", "b"} (module level, bound once):
     # the literal set where it is intersected with keys or tested with
     # isdisjoint/intersection
@@ -2435,6 +2450,7 @@ def normalize_module(tree: ast.Module, extern=None) -> ast.Module:
                         break
                 n2.local_partials(n)
                 n2.fuse_collect_loops(n)
+                n2.fuse_collect_into_comprehension(n)
                 n2.inline_single_use_generators(n)
                 n2.next_loops(n)
         tree = Idioms().visit(tree)
@@ -2485,6 +2501,7 @@ def normalize_module(tree: ast.Module, extern=None) -> ast.Module:
             n2.local_partials(n)
             if n2.fuse_collect_loops(n):
                 n2.split_tuple_assigns(n)
+            n2.fuse_collect_into_comprehension(n)
             n2.indexed_tuples(n)
     # (records handed to a private helper are local again once the helper
     # was placed at its call site)
@@ -2519,6 +2536,11 @@ def normalize_module(tree: ast.Module, extern=None) -> ast.Module:
     for n in ast.walk(tree):
         if isinstance(n, ast.FunctionDef):
             n2.propagate_block_function_aliases(n)
+            if n2.fuse_collect_loops(n):
+                n2.split_tuple_assigns(n)
+                n2.collapse_aliases(n)
+            if n2.fuse_collect_into_comprehension(n):
+                n2.inline_pure_flags(n)
     tree = AttrCalls().visit(tree)
     n2.sort_keywords(tree)
     ntypes = _namedtuples(tree)
